@@ -164,21 +164,6 @@ fn walk(ont: &Ontology, d: &mut Vec<String>) {
     }
 }
 
-/// The name a record-level call passes.  In the "borders" layout the names are degenerate - empty, the
-/// missing-value marker "-" of the annotation files, a blank - because a name is an arbitrary string and must
-/// not decide whether the record exists.
-fn rec_name(layout: &str, kind: Kind, x: u32, tag: u32) -> String {
-    if layout == "borders" {
-        match tag % 4 {
-            0 => return String::new(),
-            1 => return "-".into(),
-            2 => return " ".into(),
-            _ => {}
-        }
-    }
-    format!("{}{}#{}", kind.name(), x, tag)
-}
-
 pub fn check_line(st: &mut Stats, line: &Value, seed: u64, conc_filter: Option<&str>) -> Vec<(String, Vec<String>)> {
     let ids = u32_list(&line["ids"]);
     let calls = arr(&line["calls"]);
@@ -193,15 +178,7 @@ pub fn check_line(st: &mut Stats, line: &Value, seed: u64, conc_filter: Option<&
         st.evaluations += 1;
         let mut d: Vec<String> = vec![];
         let synth = json!({"arena": line["arena"], "edges": [], "facts": [], "expect": line["expect"]});
-        let (_, mut exp) = from_tlc(&synth, &conc);
-        for (k, kind) in KINDS.iter().enumerate() {
-            for (x, r) in exp.recs[k].iter_mut() {
-                // from_tlc names a record "<kind><id>#<tag of the call that created it>"
-                if let Some(tag) = r.name.rsplit('#').next().and_then(|t| t.parse::<u32>().ok()) {
-                    r.name = rec_name(&conc.name, *kind, *x, tag);
-                }
-            }
-        }
+        let (_, exp) = from_tlc(&synth, &conc);
         match catch(|| {
             let mut dd = vec![];
             let ont = drive(&calls, &conc, false, &mut dd);
